@@ -376,6 +376,10 @@ impl DisconnectedWorkers {
         self.workers.len() as u64
     }
 
+    pub fn contains(&self, worker_id: WorkerId) -> bool {
+        self.workers.contains_key(&worker_id)
+    }
+
     /// Returns true if all workers that have disconnected have crashed.
     /// A worker is considered to be failed if it has lost connection to the server very soon
     /// after it has connected.
